@@ -180,7 +180,11 @@ pub fn record(output: &str) {
         let y1 = r.gen_range(0.1..0.25);
         let x = r.gen_range(0.85..1.0);
         let z = r.gen_range(0.55..0.75);
-        let yaw = if k % 2 == 0 { 0.0 } else { r.gen_range(-0.5..0.5) };
+        // the settings below vary with the occurrence number of the class (and a class-dependent shift), so that every
+        // class meets every setting as the cases go on - a selector tied to k itself would alias with the class index
+        let nth = k / 12;
+        let v = nth + (k % 12) / 2;
+        let yaw = if v % 2 == 0 { 0.0 } else { r.gen_range(-0.5..0.5) };
         let obstacle: Option<WBox> = match obstacle_class {
             "blocking" => Some(WBox { c: [x, (y0 + y1) / 2.0, z + 0.03], h: [0.04, 0.03, 0.04] }),   // on the path of the tool body
             "grazing" => Some(WBox { c: [x, (y0 + y1) / 2.0, z - 0.16], h: [0.04, 0.03, 0.04] }),    // below the tool tip path
@@ -191,7 +195,7 @@ pub fn record(output: &str) {
             "fragile" => Some(WBox { c: [x + 0.04 + 0.015 + 0.08, (y0 + y1) / 2.0, z + 0.03], h: [0.04, 0.03, 0.04] }),
             _ => None,
         };
-        let mut nsteps = if obstacle_class == "at-stroke-pose" { 3 } else { 2 + k % 3 };
+        let mut nsteps = if obstacle_class == "at-stroke-pose" { 3 } else { 2 + v % 3 };
         let mut steps: Vec<Pose> = (0..nsteps).map(|i| down_pose(x, y0 + (y1 - y0) * i as f64 / (nsteps - 1) as f64, z, yaw)).collect();
         let land = down_pose(x, y0, z + 0.1, yaw);
         let mut park = down_pose(x, y1, z + 0.1, yaw);
@@ -244,16 +248,16 @@ pub fn record(output: &str) {
             obstacle = branch_blocker(&land, &steps, &park);
             if obstacle.is_none() { continue; }
         }
-        let cell = cell_full(obstacle, if k % 4 == 3 || obstacle_class == "fragile" { 10_000 } else { 0 }, j6_limit, obstacle_class == "branch-blocking", if obstacle_class == "fragile" { 150_000 } else { 0 });
+        let cell = cell_full(obstacle, if v % 4 == 3 || obstacle_class == "fragile" { 10_000 } else { 0 }, j6_limit, obstacle_class == "branch-blocking", if obstacle_class == "fragile" { 150_000 } else { 0 });
         // every third cell starts with joint 6 beyond half a turn (189 degrees, well inside its +-344 degree range)
         let mut start = cell.home;
-        if k % 3 == 2 && j6_limit > 4.0 && obstacle_class != "start-collides" { start[5] = 3.3; }
+        if (nth + k) % 3 == 2 && j6_limit > 4.0 && obstacle_class != "start-collides" { start[5] = 3.3; }
         let table_json = json!(cell.table.iter().map(|t| json!([t.0, t.1, t.2])).collect::<Vec<_>>());
         let nenv = cell.kws.body.collision_environment.len();
-        let include = k % 2 == 0;
-        let max_cost = if obstacle_class == "at-stroke-pose" { 25.0f64.to_radians() } else { [6.0f64, 12.0, 3.0][k % 3].to_radians() };
+        let include = (nth + k % 12) % 2 == 0;
+        let max_cost = if obstacle_class == "at-stroke-pose" { 25.0f64.to_radians() } else { [6.0f64, 12.0, 3.0][(nth + k % 12) % 3].to_radians() };
         // transition coefficients: the defaults, or a configuration that weighs some joints much more
-        let coeffs: Joints = match k % 3 { 0 => DEFAULT_TRANSITION_COSTS, 1 => [3.0, 2.5, 2.5, 0.9, 0.9, 3.5], _ => [2.4, 2.2, 2.2, 1.8, 1.8, 1.6] };
+        let coeffs: Joints = match (nth + k % 12 / 3) % 3 { 0 => DEFAULT_TRANSITION_COSTS, 1 => [3.0, 2.5, 2.5, 0.9, 0.9, 3.5], _ => [2.4, 2.2, 2.2, 1.8, 1.8, 1.6] };
         let mut outcomes: Vec<bool> = Vec::new();
         let mut any_rrt = false;
         case_no += 1;
@@ -262,11 +266,13 @@ pub fn record(output: &str) {
             for rep in 0..reps {
                 let planner = Cartesian {
                     robot: &cell.kws,
-                    check_step_m: if obstacle_class == "at-stroke-pose" { 0.06 } else { [0.02, 0.05][k % 2] },
-                    check_step_rad: 3.0f64.to_radians(),
+                    check_step_m: if obstacle_class == "wrist-flip" && nth % 2 == 0 { 1.0 } else if obstacle_class == "at-stroke-pose" { 0.06 } else { [0.02, 0.05][(nth + k % 12 / 4) % 2] },
+                    // (fine or coarse densification; every second wrist-flip stroke is not densified at all, so that the
+                    //  windows run from stroke pose to stroke pose and the bisection has to find the flip itself)
+                    check_step_rad: if obstacle_class == "wrist-flip" && nth % 2 == 0 { 3.2 } else { [3.0f64, 30.0][(nth + k % 12 / 2) % 2].to_radians() },
                     max_transition_cost: max_cost,
                     transition_coefficients: coeffs,
-                    linear_recursion_depth: [8, 3][(k / 2) % 2],
+                    linear_recursion_depth: [3, 8][nth % 2],
                     rrt: RRTPlanner { step_size_joint_space: 3.0f64.to_radians(), max_try: 1000, debug: false },
                     include_linear_interpolation: include,
                     debug: false,
@@ -274,7 +280,7 @@ pub fn record(output: &str) {
                 // (every third case: the same planner object is asked for a second stroke right away, same landing and
                 //  parking poses, stroke poses 2 cm further out; judged like any other plan)
                 for second in [false, true] {
-                    if second && !(k % 3 == 1 && rep == 0 && pool == *pools.last().unwrap()) { continue; }
+                    if second && !((nth + k) % 3 == 1 && rep == 0 && pool == *pools.last().unwrap()) { continue; }
                     let steps_v: Vec<Pose> = if second { steps.iter().map(|p| Pose::from_parts(nalgebra::Translation3::new(p.translation.x + 0.02, p.translation.y, p.translation.z), p.rotation)).collect() } else { steps.clone() };
                     verif_hooks::start();
                     let res = guarded(|| in_pool(pool, || planner.plan(&start, &land, steps_v.clone(), &park)));
